@@ -120,9 +120,10 @@ func (o Op) String() string {
 
 // Owns tells whether a failure signature belongs to a property. Signatures are
 // "<Call>/<symptom>[@post-prune]".
-//   C09: head selection and vote acceptance; C10: UpdateJustified, the prune sink, the checkpoint
-//   getters and every call made after a finalization advance; C11: navigation queries and the node
-//   set created by insertions.
+//
+//	C09: head selection and vote acceptance; C10: UpdateJustified, the prune sink, the checkpoint
+//	getters and every call made after a finalization advance; C11: navigation queries and the node
+//	set created by insertions.
 func Owns(prop, sig string) bool {
 	if strings.HasPrefix(sig, "harness") {
 		return true
